@@ -16,6 +16,9 @@ if "sort" in sections or len(sys.argv) == 1:
 if "ifdata" in sections or len(sys.argv) == 1:
     from rules import c18
     tab["ifdata"] = c18.items_table(prog)
+if "tokenizer" in sections or len(sys.argv) == 1:
+    from rules import c16
+    tab["tokenizer"] = c16.tokenizer_table(prog)
 if "limits" in sections:
     from rules import c12
     tab["limits"] = c12.limits_table(prog)
